@@ -44,7 +44,8 @@ Print Assumptions C20_parse_print_parse.
 (* "an identifier has one canonical form": the dictionaries and sets of the loader, the planner and the version index are
    keyed by TaskIdentifier objects, i.e. by __eq__ and __hash__.  As TRANSLATED from the working tree on every run
    (the gen_ident definitions of Gen.Generated): the printed form is "//" + the path's components joined by "/" + ":" + the name, equality
-   compares path and name, and the hash is a function of the printed form.  Hence equal identifiers -- however they were
+   compares path and name, and the hash is a function of the printed form (that __hash__ reads `hash(repr(self))` is a PIN of the
+   translator -- it refuses anything else --, the third conjunct below then holds for every function h of strings).  Hence equal identifiers -- however they were
    spelled: `//data/:prep`, `//data:prep`, `data:prep` -- are ONE key (same hash for every hash function of strings), and
    two well-formed identifiers print alike only if they are equal, so different identifiers are different keys.
    (Seed C01/j cached the hash of the spelling an identifier was parsed from.) *)
